@@ -211,6 +211,10 @@ def run(tier, seed):
             # incompressible solids: a solid FIRST layer needs starting vectors, which exist only for the dynamic incompressible case
             if k % 4 == 3 and not (kinds[0] == "S" and job["solid_static"]):
                 job["incomp"] = True
+            # the conditions are algebraic: they hold at any integrator / tolerance / starting family (Takeuchi has no incompressible form)
+            job["integ"] = ["DOP853", "RK45", "DOP853", "RK23"][k % 4]
+            job["rtol"] = [1e-9, 1e-7, 1e-11, 1e-6][k % 4]
+            job["kamata"] = bool(k % 3 != 2) or job["incomp"]
             jobs.append(job)
             meta.append((kinds, clauses, defined))
     outs = run_jobs(jobs)
